@@ -295,3 +295,4 @@ def run(ctx):
 
     c02.rule_r4(ctx, rule="R7")
     c02.rule_r7(ctx, rule="R8")
+    c02.rule_type_reader_siblings(ctx, rule="R2")
